@@ -351,7 +351,17 @@ pub(crate) fn compute_contract_weights(
                     return Err(ContractError::Unauthorized);
                 }
                 Ok((earliest_epoch_id, weight)) => {
-                    // some weight was recorded for the contract in the past, start from there
+                    // some weight was recorded for the contract, start from there.
+                    // The earliest snapshot is not necessarily in the past: LAST_CLAIMED_EPOCH is
+                    // shared across LP denoms, so start_from_epoch can be older than the first
+                    // snapshot ever recorded for this LP denom. In that case the snapshot epoch
+                    // itself is claimable and needs a weight in the hashmap, as the loop below
+                    // only starts filling from the epoch after it.
+                    if earliest_epoch_id >= *start_from_epoch
+                        && earliest_epoch_id <= *current_epoch_id
+                    {
+                        contract_weights.insert(earliest_epoch_id, weight);
+                    }
                     (earliest_epoch_id, weight)
                 }
             }
